@@ -89,24 +89,38 @@ package types
 //@ (define-fun raisedKeyId ((k enterprise.Key)) Int (kRaised.id k))
 //@ (define-fun acceptedKeyId ((k enterprise.Key)) Int (kAccepted.id k))
 //@ (define-fun poKeyId ((k enterprise.Key)) Int (kPO.id k))
+//@ (define-fun lockedKeyAddr ((k enterprise.Key)) BytesV (kLocked.a k))
+//@ (define-fun spentKeyAddr ((k enterprise.Key)) BytesV (kSpent.a k))
+//@ (define-fun whitelistKeyAddr ((k enterprise.Key)) BytesV (kWhitelist.a k))
 //@ (define-fun isPOKey ((k enterprise.Key)) Bool ((_ is kPO) k))
 //@ (define-fun isRaisedKey ((k enterprise.Key)) Bool ((_ is kRaised) k))
 //@ (define-fun isAcceptedKey ((k enterprise.Key)) Bool ((_ is kAccepted) k))
 //@ (define-fun isLockedKey ((k enterprise.Key)) Bool ((_ is kLocked) k))
+//@ (define-fun isSpentKey ((k enterprise.Key)) Bool ((_ is kSpent) k))
+//@ (define-fun isWhitelistKey ((k enterprise.Key)) Bool ((_ is kWhitelist) k))
 //@ ; a queue entry carries its own id as an 8-byte value
 //@ (define-fun qval ((b (Slice Int)) (id Int)) Bool (and (not (sl.nil b)) (= (sl.len b) 8) (= (u64dec b) id)))
 //@ (define-fun ENT_QREP ((s (Array enterprise.Key (Slice Int)))) Bool (and
 //@    (forall ((i Int)) (! (=> (raisedHas s i) (and (<= 0 i) (< i 18446744073709551616) (qval (select s (kRaised i)) i))) :pattern ((select s (kRaised i)))))
 //@    (forall ((i Int)) (! (=> (acceptedHas s i) (and (<= 0 i) (< i 18446744073709551616) (qval (select s (kAccepted i)) i))) :pattern ((select s (kAccepted i)))))))
 //@ ; prefixes used for iteration (justified by the C18 prefix/order lemmas): orders, raised queue, accepted queue ascend by id
-//@ (declare-datatypes ((enterprise.Prefix 0)) (((pPO) (pRaised) (pAccepted) (pOtherE (pOtherE.n Int)))))
+//@ ; address-keyed sections iterate in the lexicographic order of the address bytes: an abstract strict total order
+//@ (declare-fun bvLt (BytesV BytesV) Bool)
+//@ (assert (forall ((a BytesV)) (! (not (bvLt a a)) :pattern ((bvLt a a)))))
+//@ (assert (forall ((a BytesV) (b BytesV) (c BytesV)) (! (=> (and (bvLt a b) (bvLt b c)) (bvLt a c)) :pattern ((bvLt a b) (bvLt b c)))))
+//@ (assert (forall ((a BytesV) (b BytesV)) (! (or (bvLt a b) (bvLt b a) (= a b)) :pattern ((bvLt a b)))))
+//@ (declare-datatypes ((enterprise.Prefix 0)) (((pPO) (pRaised) (pAccepted) (pLockedAll) (pSpentAll) (pWhitelistAll) (pOtherE (pOtherE.n Int)))))
 //@ (declare-fun ent_prefix ((Slice Int)) enterprise.Prefix)
 //@ (define-fun ent_inprefix ((p enterprise.Prefix) (k enterprise.Key)) Bool
-//@   (ite ((_ is pPO) p) ((_ is kPO) k) (ite ((_ is pRaised) p) ((_ is kRaised) k) (ite ((_ is pAccepted) p) ((_ is kAccepted) k) false))))
+//@   (ite ((_ is pPO) p) ((_ is kPO) k) (ite ((_ is pRaised) p) ((_ is kRaised) k) (ite ((_ is pAccepted) p) ((_ is kAccepted) k)
+//@   (ite ((_ is pLockedAll) p) ((_ is kLocked) k) (ite ((_ is pSpentAll) p) ((_ is kSpent) k) (ite ((_ is pWhitelistAll) p) ((_ is kWhitelist) k) false)))))))
 //@ (define-fun ent_keylt ((a enterprise.Key) (b enterprise.Key)) Bool
 //@   (ite (and ((_ is kPO) a) ((_ is kPO) b)) (< (kPO.id a) (kPO.id b))
 //@   (ite (and ((_ is kRaised) a) ((_ is kRaised) b)) (< (kRaised.id a) (kRaised.id b))
-//@   (ite (and ((_ is kAccepted) a) ((_ is kAccepted) b)) (< (kAccepted.id a) (kAccepted.id b)) false))))
+//@   (ite (and ((_ is kAccepted) a) ((_ is kAccepted) b)) (< (kAccepted.id a) (kAccepted.id b))
+//@   (ite (and ((_ is kLocked) a) ((_ is kLocked) b)) (bvLt (kLocked.a a) (kLocked.a b))
+//@   (ite (and ((_ is kSpent) a) ((_ is kSpent) b)) (bvLt (kSpent.a a) (kSpent.a b))
+//@   (ite (and ((_ is kWhitelist) a) ((_ is kWhitelist) b)) (bvLt (kWhitelist.a a) (kWhitelist.a b)) false)))))))
 //@ ; queues mirror the status of the stored orders; every order is stored under its own id
 //@ (define-fun ENT_Q ((s (Array enterprise.Key (Slice Int)))) Bool (and (ENT_QREP s)
 //@    (forall ((i Int)) (! (=> (poHas s i) (and (<= 0 i) (< i 18446744073709551616) (= (enterprise.EnterpriseUndPurchaseOrder.Id (poGet s i)) i) (<= 1 (poStatus s i)) (<= (poStatus s i) 4))) :pattern ((select s (kPO i)))))
@@ -369,6 +383,9 @@ package types
 //@ global PurchaseOrderIDKeyPrefix abstracts ent_prefix(PurchaseOrderIDKeyPrefix) == pPO
 //@ global RaisedPoPrefix abstracts ent_prefix(RaisedPoPrefix) == pRaised
 //@ global AcceptedPoPrefix abstracts ent_prefix(AcceptedPoPrefix) == pAccepted
+//@ global LockedUndAddressKeyPrefix abstracts ent_prefix(LockedUndAddressKeyPrefix) == pLockedAll
+//@ global SpentEFUNDAddressKeyPrefix abstracts ent_prefix(SpentEFUNDAddressKeyPrefix) == pSpentAll
+//@ global WhitelistKeyPrefix abstracts ent_prefix(WhitelistKeyPrefix) == pWhitelistAll
 
 // ---------------------------------------------------------------- status / action predicates (executed at the call site)
 
@@ -393,3 +410,37 @@ package types
 //@ (define-fun decodePO ((b (Slice Int))) enterprise.EnterpriseUndPurchaseOrder (unmarshal.enterprise.EnterpriseUndPurchaseOrder b))
 //@ (declare-fun poStatusName (Int) Str)
 //@ end
+
+// ---------------------------------------------------------------- genesis documents: sums over the listed book entries
+//@ prelude
+//@ (declare-fun docLockSum ((Array Int enterprise.LockedUnd) Int) Int)
+//@ (define-fun docLockSum.def ((xs (Array Int enterprise.LockedUnd)) (n Int)) Int (ite (<= n 0) 0 (+ (docLockSum xs (- n 1)) (Amt (enterprise.LockedUnd.Amount (select xs (- n 1)))))))
+//@ (declare-fun docSpentSum ((Array Int enterprise.SpentEFUND) Int) Int)
+//@ (define-fun docSpentSum.def ((xs (Array Int enterprise.SpentEFUND)) (n Int)) Int (ite (<= n 0) 0 (+ (docSpentSum xs (- n 1)) (Amt (enterprise.SpentEFUND.Amount (select xs (- n 1)))))))
+//@ ; a store without book entries has empty sums
+//@ (assert (forall ((s (Array enterprise.Key (Slice Int)))) (! (=> (forall ((a BytesV)) (! (not (lockedHas s a)) :pattern ((select s (kLocked a))))) (= (lockSum s) 0)) :pattern ((lockSum s)))))
+//@ (assert (forall ((s (Array enterprise.Key (Slice Int)))) (! (=> (forall ((a BytesV)) (! (not (spentHas s a)) :pattern ((select s (kSpent a))))) (= (spentSum s) 0)) :pattern ((spentSum s)))))
+//@ (define-fun mkLocked ((o Str) (c sdk.Coin)) enterprise.LockedUnd (mk.enterprise.LockedUnd o c))
+//@ (define-fun lockedBytes ((r enterprise.LockedUnd)) (Slice Int) (marshal.enterprise.LockedUnd r))
+//@ (define-fun spentBytes ((r enterprise.SpentEFUND)) (Slice Int) (marshal.enterprise.SpentEFUND r))
+//@ end
+
+// ---------------------------------------------------------------- stateless validation (run by baseapp before any handler) and the authority signer
+//@ func MsgUndPurchaseOrder.ValidateBasic(msg) (err)
+//@   props C03 C13
+//@   ensures err == nil ==> validBech32(msg.Purchaser) && !isnil(msg.Amount.Amount) && Amt(msg.Amount) > 0 && validDenom(msg.Amount.Denom)
+//@ func MsgProcessUndPurchaseOrder.ValidateBasic(msg) (err)
+//@   props C03 C13
+//@   nopanic
+//@   ensures err == nil ==> validBech32(msg.Signer) && msg.PurchaseOrderId >= 1 && (msg.Decision == 2 || msg.Decision == 3)
+//@ func MsgWhitelistAddress.ValidateBasic(msg) (err)
+//@   props C03 C13
+//@   nopanic
+//@   ensures err == nil ==> validBech32(msg.Signer) && validBech32(msg.Address) && (msg.Action == 1 || msg.Action == 2)
+//@ func (*MsgUpdateParams).ValidateBasic(m) (err)
+//@   props C16 C13
+//@   ensures err == nil ==> validBech32(m.Authority) && validDenom(m.Params.Denom) && m.Params.MinAccepts >= 1 && m.Params.DecisionTimeLimit >= 1 && len(splitOn(m.Params.EntSigners, ",")) >= m.Params.MinAccepts
+//@ func (*MsgUpdateParams).GetSigners(m) (signers)
+//@   props C13
+//@   requires validBech32(m.Authority)
+//@   ensures len(signers) == 1 && signers[0] == addrOf(m.Authority)
